@@ -871,7 +871,7 @@ class Processor:
                 elif parentref in parent:
                     del parent[parentref]
             elif isinstance(parent, (CommentedSeq, list)):
-                if len(parent) > parentref:
+                if 0 <= parentref < len(parent):
                     del parent[parentref]
             elif isinstance(parent, (CommentedSet, set)):
                 if parentref in parent:
